@@ -18,10 +18,13 @@ def jobs(rng, thorough):
 def run(ctx: core.Ctx):
     ctx.lean_stage(extra_props=("Tie",))
     b2check.run_b2(ctx, jobs, ["C13"], label="keep-alive scenarios")
+    b2check.run_b2(ctx, lambda rng, th: [(gen.conn_keepalive_two(rng), rng.randrange(10 ** 9), rng.choice([0, 3])) for _ in range(20000 if th else 250)], ["C13two"],
+                   label="a second connection with its own probes and queries alive in the same process (monitor only, first connection judged)", accept=False)
     ctx.info["rule"] = ("probes, user MODELNAME queries racing them, other commands, unsolicited device lines, reply latencies 0..1.2 s, first probe swallowed or not; each under a seeded schedule with extra line-level preemptions; a case = one schedule; "
                         "non-trivial = distinct (spec, seed)")
     return ctx.finish()
 
 
 def replay(ctx, path):
-    return b2check.replay_b2(json.load(open(path))["replay"], ["C13"])
+    rp = json.load(open(path))["replay"]
+    return b2check.replay_b2(rp, ["C13two" if rp["spec"].get("second") else "C13"])
